@@ -26,6 +26,7 @@ type Cell struct {
 	V       string   `json:"v,omitempty"`
 	Chain   string   `json:"chain,omitempty"`
 	Sender  string   `json:"sender,omitempty"`
+	Des     string   `json:"des,omitempty"`
 	H       string   `json:"h,omitempty"`
 	Prod    string   `json:"prod,omitempty"`
 	Breaker bool     `json:"breaker"`
@@ -197,12 +198,9 @@ func (r *runner) execState(s *sim.Env, root int, cells []Cell) {
 			r.lg.Nodes[id-1].Args.(map[string]interface{})["ref"] = id
 		}
 	}
-	// ---------------- privileged matrix: reference = an unrelated contract on a chain without guard
-	sort.SliceStable(priv, func(a, b int) bool {
-		ra := priv[a].Chain == "other" && priv[a].Sender == "x"
-		rb := priv[b].Chain == "other" && priv[b].Sender == "x"
-		return ra && !rb
-	})
+	// ---------------- privileged matrix: reference = the contract designated for the variant, on comdex-1
+	isRef := func(c Cell) bool { return c.Chain == "comdex-1" && c.Sender == c.Des }
+	sort.SliceStable(priv, func(a, b int) bool { return isRef(priv[a]) && !isRef(priv[b]) })
 	ref = map[string]int{}
 	for _, c := range priv {
 		e := s.Branch()
@@ -215,7 +213,7 @@ func (r *runner) execState(s *sim.Env, root int, cells []Cell) {
 		post := e.Digest()
 		args := map[string]interface{}{"m": c.M, "v": c.V, "chain": c.Chain, "sender": c.Sender, "ref": ref[c.V]}
 		id := r.lg.Add(root, r.run, "Priv", args, rj(res), map[string]interface{}{"pre": pre, "post": post})
-		if c.Chain == "other" && c.Sender == "x" {
+		if isRef(c) {
 			ref[c.V] = id
 			args["ref"] = id
 		}
